@@ -175,6 +175,8 @@ def make_class(case):
         a0, t0 = attrs[0]
         if select.startswith("attrs_typed"):
             opts["attrs_typed"] = {a0: TYPES[t0]}
+            if select == "attrs_typed_both_only_first":
+                opts["attrs"] = [a0]  # nominated in both: the type given in attrs_typed is the attribute's type
         else:
             opts["attrs"] = iter([a0]) if case.get("one_shot") else [a0]
         if select.endswith("+skip0"):
@@ -184,7 +186,7 @@ def make_class(case):
     return cls, pre, opts
 
 
-MIXED = ("attrs+skip0", "attrs+skip1", "attrs_typed+skip0", "attrs_typed+skip1", "attrs_only_first", "attrs_typed_only_first")
+MIXED = ("attrs+skip0", "attrs+skip1", "attrs_typed+skip0", "attrs_typed+skip1", "attrs_only_first", "attrs_typed_only_first", "attrs_typed_both_only_first")
 
 
 def effective(case):
